@@ -11,6 +11,7 @@ import (
 	"time"
 
 	"github.com/acquirecloud/golibs/kvs"
+	"github.com/acquirecloud/golibs/kvs/inmem"
 	"github.com/acquirecloud/golibs/zverif/vsched"
 	"verifh/internal/bfs"
 	"verifh/internal/ev"
@@ -25,7 +26,7 @@ const (
 
 var steps = []time.Duration{2 * time.Second, 2000 * time.Second}
 
-func alphabet(keys []string, thorough bool) []kvh.Op {
+func alphabet(keys []string, thorough bool, inmemory bool) []kvh.Op {
 	var ops []kvh.Op
 	for _, k := range keys {
 		for e := 0; e <= 2; e++ {
@@ -37,6 +38,12 @@ func alphabet(keys []string, thorough bool) []kvh.Op {
 		ops = append(ops, kvh.Op{Kind: "get", Key: k}, kvh.Op{Kind: "delete", Key: k})
 		ops = append(ops, kvh.Op{Kind: "put", Key: k, Val: 2, Exp: 3}, kvh.Op{Kind: "cas", Key: k, Val: 3, Exp: 3, Ver: kvh.VCurrent})
 		ops = append(ops, kvh.Op{Kind: "wait", Key: k, Ver: kvh.VCurrent})
+		// expiration instants that no int64 of nanoseconds can hold: the "never" sentinel 9999-12-31 (in the future: served) ...
+		ops = append(ops, kvh.Op{Kind: "put", Key: k, Val: 2, Exp: 4}, kvh.Op{Kind: "cas", Key: k, Val: 3, Exp: 4, Ver: kvh.VCurrent})
+		if inmemory {
+			// ... and 1000-01-01 (in the past: the write succeeds and the record is gone). Not over Redis, whose smallest TTL is 1ms.
+			ops = append(ops, kvh.Op{Kind: "put", Key: k, Val: 2, Exp: 5}, kvh.Op{Kind: "create", Key: k, Val: 2, Exp: 5})
+		}
 		if thorough {
 			ops = append(ops, kvh.Op{Kind: "wait", Key: k, Ver: kvh.VNever}, kvh.Op{Kind: "cas", Key: k, Val: 3, Exp: 2, Ver: kvh.VEmpty})
 			ops = append(ops, kvh.Op{Kind: "putmany", Keys: []string{k, k}, Vals: []int{2, 3}, Exps: []int{1, 0}})
@@ -73,7 +80,7 @@ func runPath(be kvh.Backend, rd *kvh.RedisBackend, path []kvh.Op, keys []string,
 		m := kvh.NewModel()
 		m.WriterInKey = rd == nil || os.Getenv("VERIF_TIER_THOROUGH") != "" // in-memory: always; Redis: thorough tier (each transition is a round trip)
 		d := kvh.NewDriver(be.Name(), st, base)
-		d.ExpDur = []time.Duration{0, short, long, 500 * time.Microsecond} // 3: a life-time below one millisecond (still in the future)
+		d.ExpDur = []time.Duration{0, short, long, 500 * time.Microsecond, kvh.ExpNeverSentinel, kvh.ExpAncient} // 3: a life-time below one millisecond (still in the future)
 		clocks := 0
 		now := func() time.Time { return base.Add(vsched.NowPeek()) }
 		// keys whose record has expired and that no operation has touched since ("first touch" still pending):
@@ -312,7 +319,7 @@ func main() {
 	} else {
 		backend = kvh.NewInmem()
 	}
-	al := alphabet(keys, run.Thorough())
+	al := alphabet(keys, run.Thorough(), be == "inmem")
 	maxClock := 3
 	deadline := time.Now().Add(3 * time.Minute)
 	if run.Thorough() {
@@ -455,6 +462,168 @@ func concurrentWaiters(run *ev.Run) {
 			st.Transitions += e.Stats.Steps
 			if e.Found != nil {
 				fs = append(fs, fo{e.Found.Sig, e.Found.Detail, []string{fmt.Sprintf("waiters=%d cancel-mask=%b schedule=%v", n, mask, e.FoundPath)}})
+			}
+		}
+	}
+	// second family: a writer renews the record at (or just before / after) the instant it expires while 1-2 waiters
+	// sleep on it. Whatever the order of the expiry wake-up, the renewal and the waiters' bookkeeping: the renewed
+	// record (expiration in the future) must be served by every operation kind, and must be gone after ITS expiration.
+	type renewal struct {
+		kind string        // put | putforever | cas | create (create can only succeed once the old record counts as absent)
+		at   time.Duration // when the writer acts, relative to the expiration instant (0: aligned with the waiters' wake-up)
+	}
+	var rens []renewal
+	for _, k := range []string{"put", "putforever", "cas", "create"} {
+		for _, at := range []time.Duration{0, -time.Millisecond, time.Millisecond} {
+			rens = append(rens, renewal{k, at})
+		}
+	}
+	for n := 1; n <= 2; n++ {
+		for _, rn := range rens {
+			n, rn := n, rn
+			var problem string
+			scenario := func() {
+				problem = ""
+				be := kvh.NewInmem()
+				s := be.Fresh()
+				ctx := context.Background()
+				now := func() time.Time { return vsched.Epoch0.Add(vsched.NowPeek()) }
+				exp := now().Add(short)
+				ver, err := s.Create(ctx, kvs.Record{Key: "a", Value: []byte("x"), ExpiresAt: &exp})
+				if err != nil {
+					panic(err)
+				}
+				res := make([]string, n)
+				done := make([]bool, n)
+				cancels := make([]context.CancelFunc, n)
+				for i := 0; i < n; i++ {
+					i := i
+					wctx, cancel := context.WithCancel(ctx)
+					cancels[i] = cancel
+					vsched.GoNamed(fmt.Sprintf("w%d", i), func() {
+						res[i] = kvh.ErrClass(s.WaitForVersionChange(wctx, "a", ver))
+						done[i] = true
+						vsched.Note("waiter %d -> %s", i, res[i])
+					})
+				}
+				vsched.AwaitBlocked() // the waiters are parked, their expiry timers are armed
+				var wexp *time.Time
+				wrote, wdone, werr := false, false, ""
+				vsched.GoNamed("writer", func() {
+					defer func() { wdone = true }()
+					vsched.SleepAlign(exp.Sub(now())+rn.at, 100*time.Microsecond)
+					rec := kvs.Record{Key: "a", Value: []byte("renewed")}
+					if rn.kind != "putforever" {
+						t := now().Add(long)
+						rec.ExpiresAt = &t
+					}
+					var err error
+					switch rn.kind {
+					case "put", "putforever":
+						_, err = s.Put(ctx, rec)
+					case "cas":
+						rec.Version = ver
+						_, err = s.CasByVersion(ctx, rec)
+					case "create":
+						_, err = s.Create(ctx, rec)
+					}
+					werr = kvh.ErrClass(err)
+					wrote = err == nil
+					wexp = rec.ExpiresAt
+					vsched.Note("writer %s -> %s", rn.kind, werr)
+				})
+				vsched.WaitFor("writer", func() bool { return wdone })
+				vsched.Sleep(steps[0])
+				vsched.AwaitBlocked()
+				fail := func(f string, a ...any) {
+					if problem == "" {
+						problem = fmt.Sprintf("%d waiter(s) on a record expiring at +%v, %s at %+v from that instant (-> %s): ", n, short, rn.kind, rn.at, werr) + fmt.Sprintf(f, a...)
+					}
+				}
+				if rn.kind == "put" || rn.kind == "putforever" {
+					if !wrote {
+						fail("Put failed")
+					}
+				} else if !wrote && werr != map[string]string{"cas": "ErrNotExist", "create": "ErrExist"}[rn.kind] {
+					fail("undocumented result")
+				}
+				for i := 0; i < n; i++ {
+					if !done[i] {
+						fail("waiter %d is still blocked at +%v", i, vsched.NowPeek())
+					} else if res[i] != "ErrNotExist" && res[i] != "nil" {
+						fail("waiter %d returned %s", i, res[i])
+					}
+				}
+				// the record written by a successful writer has its expiration in the future (or none): it is there for every operation kind
+				present := func(when string, want bool) {
+					r, err := s.Get(ctx, "a")
+					if want && (err != nil || string(r.Value) != "renewed") {
+						fail("%s: Get(a) = %q, %s; the renewed record (expires %v) must be served", when, r.Value, kvh.ErrClass(err), wexp)
+					}
+					if !want && err == nil {
+						fail("%s: Get(a) still serves %q", when, r.Value)
+					}
+					it, err := s.ListKeys(ctx, "*")
+					listed := false
+					if err == nil {
+						for it.HasNext() {
+							k, _ := it.Next()
+							listed = listed || k == "a"
+						}
+						it.Close()
+					}
+					if listed != want {
+						fail("%s: ListKeys lists a = %v, expected %v", when, listed, want)
+					}
+					rs, err := s.GetMany(ctx, "a")
+					if got := err == nil && len(rs) == 1 && rs[0] != nil; got != want {
+						fail("%s: GetMany(a) finds it = %v, expected %v", when, got, want)
+					}
+				}
+				present("2s after the write", wrote)
+				if tbl := inmem.VerifWaiters(s); len(tbl) != 0 {
+					fail("every waiter returned but the waiter table still holds %v", tbl)
+				}
+				if wrote && wexp != nil {
+					vsched.Sleep(steps[1])
+					present("after the renewed record's own expiration", false)
+				}
+				for i := range cancels {
+					cancels[i]()
+				}
+				vsched.WaitFor("all", func() bool {
+					for _, d := range done {
+						if !d {
+							return false
+						}
+					}
+					return true
+				})
+			}
+			name := fmt.Sprintf("renewal waiters=%d writer=%s at=%v", n, rn.kind, rn.at)
+			e := &vsched.Explorer{Cfg: vsched.Config{P: 2, Preempt: fine, MaxSteps: 20000}, Scenario: scenario, StopAtFirst: true,
+				Check: func(x *vsched.Exec) (string, *vsched.Violation) {
+					if len(x.Panics) > 0 {
+						return "panic", &vsched.Violation{Sig: "inmem renewal-at-expiry panic", Detail: x.Panics[0]}
+					}
+					if problem != "" {
+						return "v", &vsched.Violation{Sig: "inmem renewal-at-expiry " + rn.kind, Detail: problem + "\nnotes: " + strings.Join(x.Notes, " / ")}
+					}
+					if x.Outcome != vsched.Completed {
+						return "v", &vsched.Violation{Sig: "inmem renewal-at-expiry:" + x.Outcome.String(), Detail: fmt.Sprint(x.Blocked)}
+					}
+					return "ok", nil
+				}}
+			e.Run()
+			if e.InfraErr != "" {
+				b, _ := json.Marshal(map[string]any{"Infra": e.InfraErr})
+				fmt.Println(string(b))
+				return
+			}
+			st.States += int(e.Stats.TreeNodes)
+			st.Transitions += e.Stats.Steps
+			if e.Found != nil {
+				fs = append(fs, fo{e.Found.Sig, e.Found.Detail, []string{fmt.Sprintf("%s schedule=%v", name, e.FoundPath)}})
 			}
 		}
 	}
